@@ -452,11 +452,12 @@ def gen_http(ctx, cases):
         head = b'GET /sync/a HTTP/1.0\r\nX-Fill: '
         rq = head + b'f' * (T - len(head) - 4) + b'\r\n\r\n'
         assert len(rq) == T
-        cuts = [[T], [min(T - 1, 16384)], [T - 1], [T - 2, T - 1], [8192, 16384], [8000, 16000, 24000, 32000], [1, 16385], [16383, 16384, 16385]]
+        cuts = [[T], [min(T - 1, 16384)], [T - 1], [T - 2, T - 1], [8192, 16384], [8000, 16000, 24000, 32000], [1, 16385], [16383, 16384, 16385],
+                list(range(16384, T, 16384)), list(range(10000, T, 10000)), [16384, 16385] + list(range(32000, T, 8000)), [1] + list(range(16385, T, 16384))]
         for c in cuts:
             pts = [0] + sorted(set(x for x in c if 0 < x < T)) + [T]
-            if max(b - a for a, b in zip(pts, pts[1:])) > 32768:
-                continue
+            if max(b - a for a, b in zip(pts, pts[1:])) > 16384:
+                continue    # one send() = one read only up to the 16384-byte read size
             cases.append('http ' + ' '.join(S(rq[a:b]) for a, b in zip(pts, pts[1:])) + ' H E X:1')
     # never-ending header line / quoted string
     for fill in (b'a', b'"', b'(', b'a\r\n '):
@@ -491,13 +492,13 @@ def gen_http(ctx, cases):
         he = rq.index(b'\r\n\r\n') + 4
         cases.append('http %s s:%s K X:1' % (S(rq[:he - 1]), hx(rq[he - 1:])))
     # 6. random mutations of valid requests and random bytes
-    for _ in range(ctx.scale(500, 12000)):
+    for _ in range(ctx.scale(500, 36000)):
         rq = rng.choice(base + goods)
         d = mutate(rng, rq)
         if rng.random() < 0.2:
             d = d + rng.choice(base)
         cases.append('http %s %s X:3' % (S(d), 'K' if rng.random() < 0.08 else 'H E'))
-    for _ in range(ctx.scale(120, 3000)):
+    for _ in range(ctx.scale(120, 8000)):
         d = rnd_bytes(rng, rng.randint(1, 60))
         if rng.random() < 0.5:
             d = rng.choice([b'GET ', b'POST /up HTTP/1.0\r\n', b'GET /sync HTTP/1.1\r\nContent-Length: ']) + d
@@ -567,7 +568,7 @@ def gen_scgi(ctx, cases):
     for d in kf[:ctx.scale(2, 3)]:
         cases.append('scgi %s H E X:1' % S(d))
     # mutations / random
-    for _ in range(ctx.scale(350, 8000)):
+    for _ in range(ctx.scale(350, 24000)):
         d = mutate(rng, rng.choice(base))
         cases.append('scgi %s %s X:1' % (S(d), 'K' if rng.random() < 0.08 else 'H E'))
     for _ in range(ctx.scale(80, 2000)):
@@ -695,7 +696,7 @@ def gen_fcgi(ctx, cases):
         r2 = freq(rng.choice(SCRIPTS), flags=1, extra=many)
         cases.append('fcgi %s H E X:4' % S(r1 + r2 + r1 + rng.choice(bads)))
     # mutations / random
-    for _ in range(ctx.scale(500, 12000)):
+    for _ in range(ctx.scale(500, 36000)):
         d = mutate(rng, rng.choice(base + goods[:2]))
         cases.append('fcgi %s %s X:3' % (S(d), 'K' if rng.random() < 0.08 else 'H E'))
     for _ in range(ctx.scale(80, 2000)):
@@ -811,7 +812,7 @@ def run(ctx):
         'ASan+UBSan (gcc) as detector of memory-unsafe operations of the compiled library on the explored inputs',
         'hand model coq/C02/Defs.v of http_parser.h / http_api.cpp / scgi_api.cpp / fastcgi_api.cpp / cgi_api.cpp / http_request.cpp / http_context.cpp error paths']
     ctx.assumptions = [
-        'kernel delivers socket bytes in order; a send() of at most 32 KiB on loopback arrives as one readable unit',
+        'kernel delivers socket bytes in order; a send() of at most 16 KiB on loopback arrives as one readable unit',
         'the server reads a segment before the next one is sent (the harness waits for FIONREAD==0 on the accepted socket)',
         'fewer than 33 CGI variables whenever a variable name is duplicated (string_map keeps the first; a rehash may reorder)',
         'FastCGI name-value bodies are shorter than 2^32 bytes (theorem hypothesis; the code caps them at 16384+65535+255)',
@@ -874,8 +875,8 @@ def run(ctx):
             cm = canon_model(c, out_m[i])
             if r is not None:
                 nskip += 1   # the oracle already reports this case (violation or known finding): nothing to compare
-            elif ' s:' in c:
-                nskip += 1   # unsynchronised send racing with a reset: oracle only
+            elif ' s:' in c or (has_reset(c) and out_m[i].count('OK:') > 1):
+                nskip += 1   # unsynchronised send / reset racing with the reply of an earlier kept-alive request: oracle only
             elif 'UNSAFE' in out_m[i] or 'UNMODELLED' in out_m[i]:
                 nskip += 1
                 km = 'model:' + ('unsafe' if 'UNSAFE' in out_m[i] else 'unmodelled')
